@@ -36,6 +36,7 @@ type State struct {
 	known    map[string]bool
 	closures map[string]*closure
 	recov    int // recover-scope depth
+	sends    string // number of channel sends that completed in this function so far (ghost, $sends)
 	barrier  int // states with different barriers are never merged (paths through different loops)
 	ghostN   int
 }
@@ -43,7 +44,7 @@ type State struct {
 func (s *State) clone() *State {
 	n := &State{vars: make(map[types.Object]Val, len(s.vars)), heap: make(map[string]string, len(s.heap)),
 		pc: append([]string(nil), s.pc...), top: s.top, locks: map[string]string{}, known: make(map[string]bool, len(s.known)),
-		closures: map[string]*closure{}, recov: s.recov, barrier: s.barrier}
+		closures: map[string]*closure{}, recov: s.recov, barrier: s.barrier, sends: s.sends}
 	for k, v := range s.vars {
 		n.vars[k] = v
 	}
@@ -92,6 +93,7 @@ type Obligation struct {
 
 // FnCtx: verification context of one function under contract.
 type FnCtx struct {
+	spawned bool // a go statement has been executed on some path of this function
 	eng      *Engine
 	pkg      *Pkg
 	fn       *types.Func
@@ -532,6 +534,14 @@ func (fc *FnCtx) mergeStates(sts []*State) *State {
 	}
 	m := base.clone()
 	m.pc = append([]string(nil), base.pc[:p]...)
+	// name long branch conditions: they are repeated in every merged variable / heap component
+	for i, c := range conds {
+		if len(c) > 200 {
+			n := fc.smt.fresh("br", "Bool")
+			m.pc = append(m.pc, eq(n, c))
+			conds[i] = n
+		}
+	}
 	m.assume(or(conds...))
 	pick := func(get func(*State) (string, bool)) (string, bool) {
 		v0, ok := get(sts[len(sts)-1])
@@ -579,6 +589,14 @@ func (fc *FnCtx) mergeStates(sts []*State) *State {
 			t = fc.nameIfBig(m, t, srt, "Hm_"+k)
 		}
 		m.heap[k] = t
+	}
+	if sd, ok := pick(func(s *State) (string, bool) {
+		if s.sends == "" {
+			return "0", true
+		}
+		return s.sends, true
+	}); ok {
+		m.sends = sd
 	}
 	t, _ := pick(func(s *State) (string, bool) { return s.top, true })
 	if t != base.top {
